@@ -103,7 +103,12 @@ PairWhy(e) ==
     THEN "prop:two-raw-values-select-the-same-alternative-at-a-bound-above-half-the-range"
   ELSE "ok"
 
+\* a draw of the sweep that rejected e.rejected consecutive words of a fixed, well spread sequence: with more than half of all raw
+\* values accepted (Draw!MoreThanHalf) that has probability below 2^-rejected - the draw does not terminate
+StuckWhy(e) == IF e.rejected >= 1024 THEN "prop:draw-does-not-terminate-every-raw-word-is-rejected" ELSE "ok"
+
 Whys(e) ==
+  IF e.op = "stuck" THEN <<StuckWhy(e)>> ELSE
   IF e.op = "pair" THEN <<PairWhy(e)>> ELSE
   IF e.op = "sweepcount" THEN SweepCountWhys(e) ELSE
   IF e.op = "opaque" THEN OpaqueWhys(e) ELSE
